@@ -426,9 +426,10 @@ class Lexer(object):
                 # if we encounter a FOR, IF, WHILE, then whatever in
                 # the parentheses are marked.  Otherwise just push
                 # into the inner marker list.
-                if (self.prev_token and
-                        self.prev_token.type in IMPLIED_BLOCK_IDENTIFIER and
-                        not self._is_property_name(self.prev_token)):
+                if (self.prev_token_real and
+                        self.prev_token_real.type in
+                        IMPLIED_BLOCK_IDENTIFIER and
+                        not self._is_property_name(self.prev_token_real)):
                     self.token_stack.append([self.cur_token, []])
                 else:
                     self.token_stack[-1][1].append(self.cur_token)
